@@ -927,6 +927,29 @@ func (l loaded) key() string {
 	return toksKey(k, l.updater, l.fp, l.v, l.e)
 }
 
+// cutLoad loads what was written with the end of the file cut off inside its
+// last line (a copy that was interrupted): the loader must not end cleanly.
+// (Cut exactly between two lines the file is a shorter valid one: the format
+// has no trailer that could tell.)
+func (w *world) cutLoad(frac int) {
+	b := w.buf.Bytes()
+	if len(b) < 2 {
+		return
+	}
+	last := bytes.LastIndexByte(b[:len(b)-1], '\n') + 1 // start of the last line
+	n := len(b) - 1 - last                             // its length without the newline
+	if n < 2 {
+		return
+	}
+	cut := last + 1 + frac%(n-1) // strictly inside the last line
+	_, _, fin := w.runLoader(b[:cut])
+	w.r.Case(fmt.Sprintf("cutload %d/%d", cut-last, n), true)
+	w.r.Count("cutload:end=" + fin)
+	if fin != "F/err" {
+		w.r.Fail("", fmt.Sprintf("a file cut inside its last line (%d of %d bytes of that line kept) loads with end %s, want an error: %s", cut-last, n, fin, w.witness()))
+	}
+}
+
 func (w *world) witness() string {
 	return "history=[" + strings.Join(w.hist, " ") + "]"
 }
@@ -1048,6 +1071,7 @@ func (w *world) hasOversize() bool {
 //	F G              the next recording call fails: diskBuf cannot create its file / the encoder rejects a record
 //	C K<k> M<k> N<k> damage the disk buffer of the update recorded last: close it, truncate it after line k,
 //	                 inside line k, just before the newline of line k
+//	T                load what was written with the file cut inside its last line
 //	S                Store
 //	L                Load
 //	Q                query latest refs and Initialized
@@ -1094,6 +1118,8 @@ func script(r *hx.Run, p *pool, text string) {
 			if len(w.all) > 0 {
 				w.damageBuf(w.all[len(w.all)-1].ref, head, k, 7)
 			}
+		case 'T':
+			w.cutLoad(i * 37)
 		case 'F':
 			w.nextFail = "disk"
 		case 'G':
@@ -1178,7 +1204,8 @@ var builtin = []string{
 	"L",                                    // nothing written at all
 	"v0 S L",                               // only a zero-length update (row 12)
 	"e0 S L",                               //
-	"v1 S L",                               // single record
+	"v1 S L T",                             // single record; the same file cut short must not load cleanly
+	"v3 e2 S T",                            //
 	"e1 S L",                               //
 	"v1 v2 v3 v2 v1 S L",                   // five entries of one kind: entries kept across Next calls must not change
 	"e2 e1 e3 e1 S L",                      //
@@ -1300,6 +1327,9 @@ func history(r *hx.Run, rnd *hx.Rand, p *pool) {
 	}
 	w.store()
 	w.load()
+	if rnd.Chance(1, 8) {
+		w.cutLoad(rnd.Intn(1 << 20))
+	}
 	// a Store call that failed on a damaged buffer left the unvisited entries in the map
 	for i := 0; len(w.live) > 0 && !r.Stop(); i++ {
 		if i == 70 {
@@ -1626,6 +1656,10 @@ func Run(cfg hx.Config) error {
 	quiet()
 	v1Witness(r)
 	v1Headers(r)
+	// 200 000 records: about 2.6 MiB of JSON per updater, more than a zstd window of 1 MiB
+	for i := 0; i < cfg.N(1, 4) && !r.Stop(); i++ {
+		v1Big(r, rnd, 200000<<uint(i%2))
+	}
 	nv := cfg.N(300, 6000)
 	for i := 0; i < nv && !r.Stop(); i++ {
 		v1Scenario(r, rnd)
